@@ -10,8 +10,11 @@ Places where the statement does not fix the value are wildcards (not compared):
   * a count-down form (`@-`) inside a repeater that `maxRepeat` stopped early (is "the last copy" the
     last written copy or the N-th?);
   * a form with an explicit start (`@M`, M != 1) outside every repeater ("is 1 when there is none" vs
-    "starts counting at M").
+    "starts counting at M");
+  * what a non-numbering `$` token (`$#`, `${1}`, `${lang}`) standing beside a numbering form expands to: a hole
+    that matches any digit-free string (clauses numbering-beside-placeholders, random-placeholders).
 """
+import itertools
 import random
 import re
 
@@ -19,6 +22,9 @@ from .common import Clause, run_parallel
 from . import c01_gen as G
 
 NUM_RE = re.compile(r'(\$+)(?:@(-?)(\d*))?')
+# the other documented `$` tokens that may stand beside a numbering form: the text placeholder `$#` and the
+# fields / variables `${1}`, `${2:ph}`, `${lang}` (tried first, as the tokenizer does); group 1 is None for them
+TOKEN_RE = re.compile(r'\$#|\$\{[^{}]*\}|(\$+)(?:@(-?)(\d*))?')
 
 
 # ----------------------------------------------------------------------------- executable statement
@@ -29,14 +35,19 @@ class _Spec:
 
     def subst(self, s, ctx):
         """s with every $-run replaced; ctx = None | (i, cell) with cell = {'N': count, 'made': copies made}.
-        Returns a list of parts: str | ('rev', cell, i, base, width) | ('any',)"""
+        Returns a list of parts: str | ('rev', cell, i, base, width) | ('any',) | ('hole',)"""
         if s is None:
             return None
         parts = []
         pos = 0
-        for m in NUM_RE.finditer(s):
+        for m in TOKEN_RE.finditer(s):
             parts.append(s[pos:m.start()])
             pos = m.end()
+            if m.group(1) is None:
+                # `$#` / `${...}`: not a `$` run.  What it expands to is the business of other properties (C04);
+                # here it is a hole in the value, the numbering forms around it are compared as usual
+                parts.append(('hole',))
+                continue
             width = len(m.group(1))
             reverse = m.group(2) == '-'
             base = int(m.group(3)) if m.group(3) else 1
@@ -86,20 +97,46 @@ def _resolve(parts):
     if parts is None:
         return None
     out = []
+    holes = False
     for p in parts:
         if isinstance(p, str):
             out.append(p)
         elif p[0] == 'any':
             return ANY
+        elif p[0] == 'hole':
+            holes = True
+            out.append(p)
         else:
             _, cell, i, base, width = p
             if cell['made'] < cell['N']:
                 return ANY                          # stopped early by maxRepeat: statement does not fix the value
             out.append(str(base + cell['N'] - i).rjust(width, '0'))   # the last copy (i == N) gets the start value
+    if holes:
+        return Holed(out)
     return ''.join(out)
 
 
 ANY = {'any': True}
+
+
+class Holed:
+    """a value with holes where a `$#` / `${...}` token stood.  The generators only supply wrap text, field
+    placeholders and variable names without digits, and supplied text is never numbered, so a hole stands
+    for any digit-free string (possibly empty, possibly with line breaks)"""
+    def __init__(self, parts):
+        self.shown = ''.join(p if isinstance(p, str) else '*' for p in parts)
+        self.rx = re.compile(''.join(re.escape(p) if isinstance(p, str) else '[^0-9]*' for p in parts), re.S)
+
+    def __ne__(self, got):
+        return got is None or not self.rx.fullmatch(got)
+
+    def __eq__(self, got):
+        return not self.__ne__(got)
+
+    __hash__ = None
+
+    def __repr__(self):
+        return repr(self.shown) + ' (* = what the placeholder expands to, no digits)'
 
 
 def spec_expand(ast, limit):
@@ -120,7 +157,7 @@ def spec_expand(ast, limit):
 
 def _show(forest):
     def s(v):
-        return '?' if v is ANY else v
+        return '?' if v is ANY else v.shown if isinstance(v, Holed) else v
 
     def one(nd):
         t = s(nd['name'])
@@ -159,14 +196,17 @@ def _compare(exp, got, path='/'):
     return None
 
 
-def check_repeat(ast, limit, syntax, fmt):
-    """ast: abbreviation AST whose strings may contain numbering forms; limit: maxRepeat or None"""
+def check_repeat(ast, limit, syntax, fmt, text=None):
+    """ast: abbreviation AST whose strings may contain numbering forms (and `$#` / `${...}` tokens beside them);
+    limit: maxRepeat or None; text: wrap text (str or list of lines) for the `$#` placeholders, or None"""
     from emmet import expand
     abbr = G.print_abbr(ast)
     expected = spec_expand(ast, limit)
     config = {'syntax': syntax, 'options': {'output.format': fmt}}
     if limit is not None:
         config['maxRepeat'] = limit
+    if text is not None:
+        config['text'] = text
     out = expand(abbr, config)
     try:
         got = G.parse_markup(out, void_without_slash=(syntax == 'html'))
@@ -174,8 +214,8 @@ def check_repeat(ast, limit, syntax, fmt):
         return 'expand(%r, maxRepeat=%r) is not well-nested markup (%s): %r' % (abbr, limit, e, out)
     d = _compare(expected, got)
     if d:
-        return 'expand(%r, maxRepeat=%r, syntax=%s, output.format=%s): %s; expected %s; output %r' % (
-            abbr, limit, syntax, fmt, d, _show(expected), out)
+        return 'expand(%r, maxRepeat=%r, syntax=%s, output.format=%s%s): %s; expected %s; output %r' % (
+            abbr, limit, syntax, fmt, '' if text is None else ', text=%r' % (text,), d, _show(expected), out)
     return None
 
 
@@ -328,11 +368,129 @@ def random_cases(seed, count):
         yield (ast, limit, rng.choice(('html', 'xml', 'xhtml')), rng.random() < 0.5)
 
 
+# ----------------------------------------------------------------------------- clause 4: numbering beside placeholders
+# (token, wrap text): the text placeholder without / with a text / with lines, a field, a field with placeholder,
+# a variable.  None of the supplied strings contains a digit (see Holed).
+BYSTANDERS = [('$#', None), ('$#', 'T'), ('$#', ['T', 'Uu']), ('${1}', None), ('${2:ph}', None), ('${lang}', None)]
+PLACEMENTS = ['attr-alone', 'attr-mixed', 'text-before', 'text-after']
+
+
+def carrier_head(j, token, placement):
+    """element j with the token beside its counters: the counters of the class come before it, those of the
+    text (and, in attr-mixed, of the same value) after it"""
+    h = {'name': 'x%d' % j, 'cls': ['n$'], 'attrs': [['title', 'v$']], 'text': 't$$@-'}
+    if placement == 'attr-alone':
+        h['attrs'] = [['title', token]]
+    elif placement == 'attr-mixed':
+        h['attrs'] = [['title', 'v$ %s w$@-' % token]]
+    elif placement == 'text-before':
+        h['text'] = token + ':t$$@-'
+    else:
+        h['text'] = 't$$@-:' + token
+    return h
+
+
+def _decorate_bystander(skel, reps, carrier, token, placement):
+    counter = [0, 0]
+
+    def items(sk):
+        out = []
+        for kind, ch in sk:
+            idx = counter[0]
+            counter[0] += 1
+            rep = reps.get(idx)
+            if kind == 'g':
+                out.append(['g', rep, items(ch)])
+            else:
+                j = counter[1]
+                counter[1] += 1
+                if j == carrier:
+                    head = carrier_head(j, token, placement)
+                else:
+                    head = {'name': 'x%d' % j, 'cls': ['n$'], 'attrs': [['title', 'v$@-']], 'text': 't$$'}
+                out.append(['e', head, rep, items(ch)])
+        return out
+    return items(skel)
+
+
+def bystander_cases(spaces, values, bystanders):
+    """spaces: (n, gmin, gmax, rmax): every skeleton with n elements and gmin..gmax groups, every placement of <= rmax
+    repeaters with counts from `values`; every element in turn carries every (token, wrap text) of `bystanders` in
+    every placement; all other elements are `xJ.n$[title=v$@-]{t$$}`"""
+    for n, gmin, gmax, rmax in spaces:
+        for g in range(gmin, gmax + 1):
+            for skel in G.skeletons(n, g):
+                m = G.count_nodes(skel)
+                for reps in G.rep_assignments(m, rmax, values):
+                    for carrier in range(n):
+                        for token, text in bystanders:
+                            for placement in PLACEMENTS:
+                                yield (_decorate_bystander(skel, reps, carrier, token, placement), None, 'html', False, text)
+
+
+def random_bystander_cases(seed, count):
+    """random ASTs as in random_cases; some elements get a `$#` / `${...}` token added to an attribute value or to
+    the text, beside the numbering forms; wrap text only when a `$#` occurs (else it would be appended somewhere)"""
+    rng = random.Random(seed * 7919 + 2)
+    tokens = ['$#', '$#', '$#', '${1}', '${3:ph}', '${lang}', '${word}']
+
+    def form():
+        f = '$' * rng.choice((1, 1, 2, 3))
+        if rng.random() < 0.5:
+            rev = rng.random() < 0.5
+            f += '@' + ('-' if rev else '') + (str(rng.choice((0, 1, 2, 9, 97))) if rng.random() < 0.7 or not rev else '')
+        return f
+
+    for _ in range(count):
+        n = rng.randint(2, 8)
+        ast = G.random_ast(rng, n, names=['x'], implicit_p=0.0, id_p=0.0, max_mult=40, rep_p=0.55,
+                           rep_values=(1, 2, 2, 3, 3, 4, 5), group_p=0.25)
+        total = [0]
+        used = set()
+
+        def deco(items, mult):
+            for it in items:
+                rep = it[1] if it[0] == 'g' else it[2]
+                m2 = mult * (rep or 1)
+                if rep:
+                    total[0] += m2
+                if it[0] == 'e':
+                    h = numbered_head(form(), rng.choice(POSITIONS), 'x') if rng.random() < 0.8 else {'name': 'q'}
+                    if rng.random() < 0.5:
+                        tok = rng.choice(tokens)
+                        used.add(tok)
+                        r = rng.random()
+                        if r < 0.4:
+                            # a further attribute: written (and evaluated) after the element's other attributes
+                            h.setdefault('attrs', []).append(['lang', rng.choice((tok, 'a%s-%s' % (form(), tok), '%s b %s' % (tok, form())))])
+                        elif r < 0.5:
+                            # ... or before them
+                            h['attrs'] = [['lang', tok]] + h.get('attrs', [])
+                        elif h.get('text') is not None:
+                            h['text'] = tok + ':' + h['text'] if rng.random() < 0.5 else h['text'] + ':' + tok
+                        else:
+                            h['text'] = rng.choice((tok, tok + ':s' + form(), 's' + form() + ':' + tok))
+                    it[1] = h
+                    deco(it[3], m2)
+                else:
+                    deco(it[2], m2)
+        deco(ast, 1)
+        r = rng.random()
+        limit = None if r < 0.6 else rng.randint(1, max(2, total[0] + 2))
+        text = None
+        if '$#' in used:
+            text = rng.choice((None, 'T', 'some text', ['T', 'Uu'], ['a', '', 'b c']))
+        yield (ast, limit, rng.choice(('html', 'xml', 'xhtml')), rng.random() < 0.5, text)
+
+
 def run(tier, seed):
     if tier == 'quick':
         spaces, nmax, nrand = [(1, 2, 2), (2, 2, 2), (3, 2, 2)], 4, 4000
+        # all tokens in the first space, only `$#` without wrap text in the second
+        bspaces, bspaces2, bvalues, nbrand = [(1, 0, 2, 2), (2, 0, 2, 2), (3, 0, 0, 2)], [(3, 1, 1, 2)], (2, 3), 3000
     else:
         spaces, nmax, nrand = [(1, 2, 2), (2, 2, 2), (3, 2, 2), (4, 1, 2)], 4, 150000
+        bspaces, bspaces2, bvalues, nbrand = [(1, 0, 2, 2), (2, 0, 2, 2), (3, 0, 2, 2)], [], (1, 2, 3), 60000
     out = []
     c = Clause('copies-maxrepeat', 'B',
                'every operator skeleton, every placement of repeaters *1..*%d on elements and groups, every maxRepeat; every element '
@@ -356,5 +514,29 @@ def run(tier, seed):
                'numbering forms ($ width 1..5, @ start 0..1200, count-down) in random positions, random maxRepeat, syntax, format',
                '%d cases, seed %d' % (nrand, seed), 'a case is (AST, maxRepeat, syntax, output.format)', exhaustive=False)
     run_parallel(c, 'bounded.c02', 'check_repeat', random_cases(seed, nrand), chunk=100)
+    out.append(c.done())
+
+    c = Clause('numbering-beside-placeholders', 'B',
+               'every operator skeleton, every placement of repeaters on elements and groups; every element in turn carries one of '
+               'the non-numbering `$` tokens %s beside its counters, in the placements %s (`xJ.n$[title=<token>]{t$$@-}`, '
+               '`xJ.n$[title="v$ <token> w$@-"]{t$$@-}`, `xJ.n$[title=v$]{<token>:t$$@-}`, `xJ.n$[title=v$]{t$$@-:<token>}`); '
+               'every other element is `xJ.n$[title=v$@-]{t$$}`.  What the token expands to is not compared, the counters are'
+               % ([b[0] for b in BYSTANDERS[2:]], PLACEMENTS),
+               '; '.join('%d elements, %d..%d groups, <=%d repeaters' % s for s in bspaces)
+               + ' with every token, `$#` without wrap text, with text "T" and with lines ["T", "Uu"]'
+               + ''.join('; %d elements, %d..%d groups, <=%d repeaters with `$#` without wrap text only' % s for s in bspaces2)
+               + '; counts from %s; no maxRepeat; html, output.format off' % (bvalues,),
+               'a case is (AST, wrap text); distinct by both', exhaustive=True)
+    cases = itertools.chain(bystander_cases(bspaces, bvalues, BYSTANDERS), bystander_cases(bspaces2, bvalues, BYSTANDERS[:1]))
+    run_parallel(c, 'bounded.c02', 'check_repeat', cases, chunk=1000)
+    out.append(c.done())
+
+    c = Clause('random-placeholders', 'B',
+               'seeded random ASTs of 2..8 elements, repeat counts from (1 2 3 4 5) with nested product <= 40, random numbering '
+               'forms in random positions; about half of the elements also carry a `$#`, `${N}`, `${N:ph}` or `${var}` token in an '
+               'attribute value or in the text; random wrap text (none / string / lines) when a `$#` occurs; random maxRepeat, '
+               'syntax, format',
+               '%d cases, seed %d' % (nbrand, seed), 'a case is (AST, maxRepeat, syntax, output.format, wrap text)', exhaustive=False)
+    run_parallel(c, 'bounded.c02', 'check_repeat', random_bystander_cases(seed, nbrand), chunk=100)
     out.append(c.done())
     return out
